@@ -34,9 +34,27 @@ type c19kCase struct {
 	Tokens []string `json:"events"` // uA uB uC uL fire rec-ok rec-fail
 }
 
+// The three configurations are related by removal: 2 is 1 with the last neighbor, the last prefixes and the
+// password dropped, 3 has no router at all - so that a comparison which ignores unset fields or list tails
+// (instead of the reflect.DeepEqual the reconciler is meant to use) cannot tell them apart in one direction.
 func c19kConfig(name string) frrv1beta1.FRRConfiguration {
-	return frrv1beta1.FRRConfiguration{ObjectMeta: metav1.ObjectMeta{Name: "metallb-node1", Namespace: "frr-k8s-system"},
-		Spec: frrv1beta1.FRRConfigurationSpec{BGP: frrv1beta1.BGPConfig{Routers: []frrv1beta1.Router{{ASN: 64512, ID: "10.0.0." + name}}}}}
+	c := frrv1beta1.FRRConfiguration{ObjectMeta: metav1.ObjectMeta{Name: "metallb-node1", Namespace: "frr-k8s-system"}}
+	c.Spec.NodeSelector = metav1.LabelSelector{MatchLabels: map[string]string{"kubernetes.io/hostname": "node1"}} // as the session manager sets it
+	nb := func(addr string, prefixes ...string) frrv1beta1.Neighbor {
+		return frrv1beta1.Neighbor{ASN: 64600, Address: addr, ToAdvertise: frrv1beta1.Advertise{Allowed: frrv1beta1.AllowedOutPrefixes{Prefixes: prefixes}}}
+	}
+	switch name {
+	case "1":
+		n1 := nb("10.2.2.1", "192.168.1.0/24", "192.168.2.0/24")
+		n1.Password = "secret"
+		c.Spec.BGP.Routers = []frrv1beta1.Router{{ASN: 64512, ID: "10.0.0.1", Neighbors: []frrv1beta1.Neighbor{n1, nb("10.2.2.2", "192.168.1.0/24")},
+			Prefixes: []string{"192.168.1.0/24", "192.168.2.0/24"}}}
+	case "2":
+		c.Spec.BGP.Routers = []frrv1beta1.Router{{ASN: 64512, ID: "10.0.0.1", Neighbors: []frrv1beta1.Neighbor{nb("10.2.2.1", "192.168.1.0/24")},
+			Prefixes: []string{"192.168.1.0/24"}}}
+	case "3":
+	}
+	return c
 }
 
 func c19kExec(res *verifrt.Result, c c19kCase) {
@@ -169,7 +187,7 @@ func c19kExec(res *verifrt.Result, c c19kCase) {
 	if latest != nil {
 		cur, _ := store.Peek("FRRConfiguration", "frr-k8s-system", "metallb-node1").(*frrv1beta1.FRRConfiguration)
 		if cur == nil || !reflect.DeepEqual(cur.Spec, latest.Spec) {
-			viol("C19 frr-k8s applied resource is not the latest submitted configuration", fmt.Sprintf("applied %v, latest %v", cur != nil, latest.Spec.BGP.Routers[0].ID))
+			viol("C19 frr-k8s applied resource is not the latest submitted configuration", fmt.Sprintf("applied %+v\nlatest %+v", cur, latest.Spec))
 		}
 	}
 	res.Outcome(fmt.Sprintf("writes=%d", store.Writes))
